@@ -91,6 +91,8 @@ def sweep(chunks=(1, 3, 7, 1 << 16)):
         for flexible, full in ((False, INT32.pack(1) + body()), (True, INT32.pack(1) + flexible_body())):
             for k in range(len(full)):
                 for chunk in (chunks if not flexible else (1, 1 << 16)):
+                    if len(fails) >= 10:
+                        return          # ten failing inputs are reported; each pending waiter costs the 2 s wait
                     n += 1
                     r = await one(full[:k], chunk, flexible)
                     if r:
@@ -106,7 +108,7 @@ def main():
     ap.add_argument("--seed", type=int, default=0)
     ap.parse_args()
     n, fails = sweep()
-    emit({"name": "truncated-reply-frames", "exhaustive": True, "cases": n, "distinct_nontrivial": n,
+    emit({"name": "truncated-reply-frames", "exhaustive": len(fails) < 10, "cases": n, "distinct_nontrivial": n,
           "bound": "every proper prefix of one MetadataResponse_v0 reply frame (two brokers, two topics) and of one flexible "
                    "ListPartitionReassignmentsResponse_v0 frame with tagged fields in header, entry and body end, as the first of three "
                    "pipelined replies on a real AIOKafkaConnection over a real StreamReader, fed in pieces of 1, 3, 7 bytes and at once",
